@@ -40,14 +40,14 @@ STD_POINTS = [0, 0.0, 0.5, -0.5, 1, -1, 1.5, -1.5, 2, -2, 3, -3, 1e-9, None]
 
 
 def run(rep):
-    predicate(rep)
-    changed_bonds(rep)
-    ensure_node(rep)
-    get_rc_shape(rep)
-    hh(rep)
-    knn(rep)
-    extract_k(rep)
-    no_id_order(rep)
+    rep.run(predicate)
+    rep.run(changed_bonds)
+    rep.run(ensure_node)
+    rep.run(get_rc_shape)
+    rep.run(hh)
+    rep.run(knn)
+    rep.run(extract_k)
+    rep.run(no_id_order)
 
 
 def predicate(rep):
